@@ -706,6 +706,30 @@ def _check_wiring(run: Run, m: Module, qual: str, reader: str, idx: int, sinks, 
             found += 1
             wv = t.id
             wanted = set(sinks(wv))
+            # the receipts may first go into a local list that is merged into the tool's list later (a stage that collects its
+            # own corrections): any list that flows into `corrections` / `repairs_list` is as good as the list itself
+            flows: set[str] = set()
+            for w0 in list(wanted):
+                if "." in w0.split("(")[0]:
+                    flows.add(w0.split(".")[0])
+            changed_f = True
+            while changed_f:
+                changed_f = False
+                for x in walk_no_nested(fi.node):
+                    src = None
+                    if isinstance(x, ast.Call) and isinstance(x.func, ast.Attribute) and x.func.attr == "extend" and isinstance(x.func.value, ast.Name) and x.func.value.id in flows and x.args and isinstance(x.args[0], ast.Name):
+                        src = x.args[0].id
+                    elif isinstance(x, ast.Assign) and len(x.targets) == 1 and isinstance(x.targets[0], ast.Name) and x.targets[0].id in flows and isinstance(x.value, ast.Name):
+                        src = x.value.id
+                    elif isinstance(x, ast.AugAssign) and isinstance(x.target, ast.Name) and x.target.id in flows and isinstance(x.value, ast.Name):
+                        src = x.value.id
+                    if src is not None and src not in flows:
+                        flows.add(src)
+                        changed_f = True
+            for w0 in list(wanted):
+                head = w0.split(".")[0]
+                if head in flows:
+                    wanted |= {f + w0[len(head):] for f in flows}
             blk = _block_of(n) or []
             # the sink follows in the same block, or in the block enclosing the try in which the reader is called
             cands = list(blk[blk.index(n) + 1:]) if n in blk else []
@@ -714,6 +738,10 @@ def _check_wiring(run: Run, m: Module, qual: str, reader: str, idx: int, sinks, 
                 b2 = _block_of(par) or []
                 cands += b2[b2.index(par) + 1:] if par in b2 else []
             hit = any(_text(c) in wanted for s in cands for c in ast.walk(s) if isinstance(c, ast.Call))
+            if not hit:
+                # the mapped receipts bound to (not extended into) a list that flows into the tool's list
+                inner = {w0[w0.index(".extend(") + 8:-1] for w0 in wanted if ".extend(" in w0}
+                hit = any(isinstance(a, ast.Assign) and len(a.targets) == 1 and isinstance(a.targets[0], ast.Name) and a.targets[0].id in flows and _text(a.value) in inner for s in cands for a in ast.walk(s))
             if hit:
                 wired += 1
             elif wv.startswith("strict_parse_warnings"):
